@@ -30,13 +30,13 @@ fn limbs(u: &U256) -> String {
 pub fn run(t: &[&str]) -> String {
     guarded(|| match t[0] {
         // ---------------- formulas ----------------
-        #[cfg(feature = "fnapi")]
+        #[cfg(feature = "fn_compute_swap")]
         "compute_swap" => {
             let (r, s, c) =
                 formulas::compute_swap(uint128(t[1]), uint128(t[2]), uint128(t[3]), dec256(t[4]));
             format!("ok {} {} {}", r, s, c)
         }
-        #[cfg(feature = "fnapi")]
+        #[cfg(feature = "fn_compute_offer_amount")]
         "compute_offer_amount" => {
             let (o, s, c) = formulas::compute_offer_amount(
                 uint128(t[1]),
@@ -46,7 +46,7 @@ pub fn run(t: &[&str]) -> String {
             );
             format!("ok {} {} {}", o, s, c)
         }
-        #[cfg(feature = "fnapi")]
+        #[cfg(feature = "fn_lp_share")]
         "lp_share" => {
             // wl min0 min1 S d0 d1 r0 r1
             let wl = t[1] == "1";
@@ -225,11 +225,21 @@ pub fn run(t: &[&str]) -> String {
         "u_unjson" => std_result(from_slice::<Uint256>(&unhex(t[1])).map(ok1)),
         "d_unjson" => std_result(from_slice::<Decimal256>(&unhex(t[1])).map(|d| ok1(d.0))),
         // ---------------- guards ----------------
-        #[cfg(not(feature = "fnapi"))]
-        "max_spread" | "slippage" | "compute_swap" | "compute_offer_amount" | "lp_share" | "sent_native" | "assert_ops" => {
-            panic!("harness: built without the function-level API (its signatures no longer match)")
-        }
-        #[cfg(feature = "fnapi")]
+        #[cfg(not(feature = "fn_compute_swap"))]
+        "compute_swap" => panic!("harness: built without the direct call to compute_swap (its signature no longer matches)"),
+        #[cfg(not(feature = "fn_compute_offer_amount"))]
+        "compute_offer_amount" => panic!("harness: built without the direct call to compute_offer_amount (its signature no longer matches)"),
+        #[cfg(not(feature = "fn_lp_share"))]
+        "lp_share" => panic!("harness: built without the direct call to lp_share (its signature no longer matches)"),
+        #[cfg(not(feature = "fn_max_spread"))]
+        "max_spread" => panic!("harness: built without the direct call to max_spread (its signature no longer matches)"),
+        #[cfg(not(feature = "fn_slippage"))]
+        "slippage" => panic!("harness: built without the direct call to slippage (its signature no longer matches)"),
+        #[cfg(not(feature = "fn_sent_native"))]
+        "sent_native" => panic!("harness: built without the direct call to sent_native (its signature no longer matches)"),
+        #[cfg(not(feature = "fn_assert_ops"))]
+        "assert_ops" => panic!("harness: built without the direct call to assert_ops (its signature no longer matches)"),
+        #[cfg(feature = "fn_max_spread")]
         "max_spread" => {
             // bp ms offer ret spread od rd
             let offer = Asset {
@@ -257,7 +267,7 @@ pub fn run(t: &[&str]) -> String {
                 .map(|_| "ok".to_string()),
             )
         }
-        #[cfg(feature = "fnapi")]
+        #[cfg(feature = "fn_slippage")]
         "slippage" => {
             // t d0 d1 p0 p1
             let pools = [
@@ -283,7 +293,7 @@ pub fn run(t: &[&str]) -> String {
                 .map(|_| "ok".to_string()),
             )
         }
-        #[cfg(feature = "fnapi")]
+        #[cfg(feature = "fn_sent_native")]
         "sent_native" => {
             // kind idhex amount nfunds (denomhex amount)*
             let asset = Asset {
@@ -308,7 +318,7 @@ pub fn run(t: &[&str]) -> String {
                     .map(|_| "ok".to_string()),
             )
         }
-        #[cfg(feature = "fnapi")]
+        #[cfg(feature = "fn_assert_ops")]
         "assert_ops" => {
             // n (kind idhex kind idhex)*
             let n: usize = t[1].parse().unwrap();
